@@ -51,9 +51,11 @@ func main() {
 		cases := fs.String("cases", "cases.ndjson", "TLC-emitted cases")
 		out := fs.String("out", "trace.ndjson", "output trace")
 		prop := fs.String("prop", "C03", "")
+		tag := fs.String("tag", "case", "")
 		shard := fs.Int("shard", 0, "")
 		nshards := fs.Int("nshards", 1, "")
 		fs.Parse(os.Args[2:])
+		caseTag = *tag
 		n, ops := replayEditCases(*cases, *out, *prop, *shard, *nshards)
 		summary(map[string]interface{}{"events": n, "ops": ops})
 	default:
